@@ -86,7 +86,7 @@ def controller_state(conn, ex):
             "unit": ex.allocated_virtual(conn.app_id) if conn.app_id in ex._qubit_unit_modules else None}
 
 
-BUILD_KINDS = ("new", "gate", "rot", "gate2", "meas", "array", "loop", "if")
+BUILD_KINDS = ("new", "gate", "rot", "gate2", "meas", "array", "loop", "if", "newreg", "radd", "fadd")
 
 # Template names are arbitrary strings.  Adversarial vocabulary: the branch labels the builder
 # generates (with the numbered variants of the label manager), register-, address- and
@@ -178,6 +178,7 @@ def run_flow(prog, flow, outcomes):
     conn.builder.subrt_compile_subroutine = wrapped
     handles = []
     futures = []
+    regs = []  # RegFuture handles of new_register
     outstanding = []
     block = []  # build events since the last terminator
     rec = {"events": [], "protos": captured, "close": None, "futures": None, "msgs": None, "error": None,
@@ -206,6 +207,14 @@ def run_flow(prog, flow, outcomes):
             with conn.loop(st["count"]):
                 for b in st["steps"]:
                     do_build(b, vals)
+        elif k == "newreg":
+            # a register handle that stays live across blocks
+            regs.append(conn.builder.new_register(init_value=st["init"]))
+        elif k == "radd":
+            regs[st["r"]].add(st["v"])
+        elif k == "fadd":
+            # an array entry written again by a later block
+            futures[st["f"]].add(st["v"])
         elif k == "if":
             # with <earlier outcome>.if_eq(v): <gates / rotations>  (label IF_EXIT, IF_EXIT1, …)
             with futures[st["f"]].if_eq(st["v"]):
@@ -216,9 +225,17 @@ def run_flow(prog, flow, outcomes):
             k = st["k"]
             before = render_cmds(conn.builder._pending_commands)
             note = None
+            read_val = None
             if k in BUILD_KINDS:
                 block.append(st)
                 do_build(st, next_vals(events, i))
+            elif k == "read":
+                # what the host sees through a handle (obtained earlier, possibly read before)
+                h = (futures if st["t"] == "f" else regs)[st["i"]]
+                try:
+                    read_val = h.value
+                except Exception as e:  # noqa: BLE001
+                    read_val = "error:" + type(e).__name__
             elif k == "flush":
                 conn.flush()
                 block = []
@@ -276,7 +293,9 @@ def run_flow(prog, flow, outcomes):
                 raise KeyError(k)
             r = {"bk": bookkeeping(conn), "handles": handle_state(handles), "nmsgs": len(conn.messages) - n_init,
                  "outstanding": len(outstanding), "ntrace": len(ex.trace), "state": controller_state(conn, ex),
-                 "note": note}
+                 "note": note, "read": read_val}
+            if k == "newreg":
+                r["reg_index"] = regs[-1].reg.index
             if k in BUILD_KINDS:
                 after = render_cmds(conn.builder._pending_commands)
                 r["rewrite"] = after[:len(before)] != before
@@ -288,6 +307,11 @@ def run_flow(prog, flow, outcomes):
         rec["trace"] = [list(t) for t in ex.trace]
         vals_out = []
         for f in futures:
+            try:
+                vals_out.append(f.value)
+            except Exception as e:  # noqa: BLE001
+                vals_out.append("error:" + type(e).__name__)
+        for f in regs:
             try:
                 vals_out.append(f.value)
             except Exception as e:  # noqa: BLE001
@@ -309,6 +333,9 @@ def model_request(prog, recP):
     extra = []  # per outstanding template: number of further instances
     for st, r in zip(prog["events"], recP["events"]):
         k = st["k"]
+        if k == "read":
+            idx.append(None)
+            continue
         if k == "commit" and extra:
             if extra[0] > 0:
                 extra[0] -= 1
@@ -320,6 +347,8 @@ def model_request(prog, recP):
             evs.append({"k": "build", "op": {"k": "array", "len": st["len"]}})
         elif k == "meas":
             evs.append({"k": "build", "op": {"k": "meas", "m": st["mode"], "cs": r["delta"]}})
+        elif k == "newreg":
+            evs.append({"k": "build", "op": {"k": "newreg", "idx": r["reg_index"], "cs": r["delta"]}})
         elif k in BUILD_KINDS:
             evs.append({"k": "build", "op": {"k": "cmds", "cs": r["delta"]}})
         elif k == "compile":
@@ -340,6 +369,22 @@ def random_program(rng, thorough=False):
     events = []
     tcount = 0
     arr_futs = []  # indices (among all measurement futures) of those stored in arrays
+    nregs = 0  # new_register handles (live across blocks)
+    was_read = []  # handles the host has already read once (their value is cached)
+
+    def reads():
+        """the host reads handles at a point where nothing is outstanding: handles read before
+        (re-reads) and fresh ones"""
+        if rng.random() < 0.6:
+            return
+        pool = [("f", i) for i in arr_futs] + [("r", i) for i in range(nregs)]
+        for _ in range(rng.randint(1, 3)):
+            if not pool:
+                return
+            t, i = rng.choice(was_read) if (was_read and rng.random() < 0.6) else rng.choice(pool)
+            events.append({"k": "read", "t": t, "i": i})
+            if (t, i) not in was_read:
+                was_read.append((t, i))
     nmeas = 0
     outstanding = 0
     interleave = rng.random() < 0.6  # build operations between compile and commit
@@ -435,8 +480,24 @@ def random_program(rng, thorough=False):
                 ch += ["gate2"]
             if lv:
                 ch += ["loop", "loop"] + (["if", "if"] if arr_futs else [])
+            if nregs < 3:
+                ch += ["newreg"]
+            if nregs:
+                ch += ["radd", "radd"]
+            if arr_futs:
+                ch += ["fadd", "fadd"]
             k = rng.choice(ch)
             nbuilt += 1
+            if k == "newreg":
+                events.append({"k": "newreg", "init": rng.randrange(8)})
+                nregs += 1
+                continue
+            if k == "radd":
+                events.append({"k": "radd", "r": rng.randrange(nregs), "v": rng.randint(1, 5)})
+                continue
+            if k == "fadd":
+                events.append({"k": "fadd", "f": rng.choice(arr_futs), "v": rng.randint(1, 5)})
+                continue
             if k in ("loop", "if"):
                 # gates and (templated) rotations inside a loop / a conditional block
                 steps = []
@@ -506,9 +567,12 @@ def random_program(rng, thorough=False):
                 while outstanding:
                     events.append({"k": "commit"})
                     outstanding -= 1
+                reads()
         else:
             events.append({"k": "flush"})
+            reads()
     while outstanding:
         events.append({"k": "commit"})
         outstanding -= 1
+    reads()
     return {"cfg": cfg, "events": events}
